@@ -209,11 +209,13 @@ type World struct {
 	usage    []int
 	retQ     []int /* Attempts whose Connect* returned since the last step. */
 
-	linesEntered int
-	entered      []string
-	consumed     int
-	plainSeen    int
-	noticeSeen   int
+	linesEntered      int
+	entered           []string
+	consumed          int
+	plainSeen         int
+	noticeSeen        int
+	stalledNotices    []string /* Non-plain notices taken so far (unbuffered och only). */
+	cumReady, cumGone int
 
 	m     model
 	Viols []Viol
